@@ -570,7 +570,7 @@ func bigSpecs(role string) []spec {
 			return buildFrame(proto, headerPairs(role, opid), method, t, st()).b
 		})
 	}
-	out := []spec{method(600 << 10), method(900 << 10), header("_cid", 600<<10), header("x-big", 900<<10)}
+	out := []spec{method(600 << 10), method(900 << 10), method(1100 << 10), header("_cid", 600<<10), header("x-big", 900<<10)}
 	bigBytes := func(n int) []byte { return []byte(big(n)) }
 	switch role {
 	case roleReq:
